@@ -40,7 +40,7 @@ var anchorPatterns = map[string][]string{
 		`^model\.\(\*AlternativeWithCriteria\)\.(CriterionValue|CriterionRawValue)$`, `^model\.\(\*Criterion\)\.(Multiplier|IsGain)$`,
 		`^model\.\(\*Criteria\)\.(ZipWithWeights|FindWeight|Names)$`, `^model\.\(\*Weights\)\.Fetch$`, `^utils\.FloatsAreEqual$`,
 	},
-	"C04": {`^type:model\.(EvaluationSingleValue|AlternativeResult|AlternativesRankEntry)$`, `^model\.\(\*AlternativeResults\)\.(Len|Swap)$`,
+	"C04": {`^model\.\(\*DecisionMaker\)\.(AlternativesToConsider|NotConsideredAlternatives|prepareParams)$`, `^model\.(FetchAlternatives|FetchAlternative)$`, `^type:model\.(EvaluationSingleValue|AlternativeResult|AlternativesRankEntry)$`, `^model\.\(\*AlternativeResults\)\.(Len|Swap)$`,
 
 		`^model\.\(\*AlternativeResults\)\.(Ranking|Less)$`, `^model\.\(\*AlternativeResult\)\.(positionInRanking|rounded|Value)$`, `^model\.Rank$`, `^model\.ValueAlternativeResult$`,
 	},
@@ -83,7 +83,7 @@ var anchorPatterns = map[string][]string{
 		`^fatigue\.\(\*Fatigue\)\.Apply$`, `^utils\.(RandomGenerator|RandomBasedSeedValueGenerator|DecodeToStruct|AsMap)$`, `\.New\w+$`, `^main\.`,
 		`^satisfaction_levels\.\(\*(IdealCoefficientSatisfactionLevels|ThresholdSatisfactionLevels)\)\.`, `^choquet\.PowerSet$`,
 	},
-	"C11": {`^type:majority\.`, `^global:main\.funcs$`,
+	"C11": {`^model\.\(\*DecisionMaker\)\.(AlternativesToConsider|NotConsideredAlternatives|prepareParams)$`, `^model\.(FetchAlternatives|FetchAlternative)$`, `^type:majority\.`, `^global:main\.funcs$`,
 		`^majority\.`, `^limited_rationality\.(GetAlternativesSearchOrder|OrderAlternatives)$`, `^utils\.FloatsAreEqual$`,
 		`^model\.\(\*AlternativeWithCriteria\)\.CriterionValue$`, `^model\.\(\*Criteria\)\.ZipWithWeights$`, `^model\.\(\*AlternativesRanking\)\.ReverseOrder$`},
 	"C12": {`^type:aspect_elimination\.`, `^satisfaction_levels\.\(\*\w+Source\)\.BlankParams$`, `^global:main\.(funcs|increasingSatisfactionLevels)$`, `^global:satisfaction_levels\.`, `^satisfaction_levels\.\(\*(IdealCoefficientSatisfactionLevels|IncreasingCoefficientManager)\)\.`,
